@@ -19,7 +19,7 @@ Ltac destr_state s :=
 Ltac table := cbv [g_list_lines g_edit g_save g_store_line g_merge g_delete g_renum g_get_memory
   g_get_memory_block g_set_memory g_peek g_poke g_bload g_bsave g_chain g_cb_list g_cb_edit g_cb_save
   g_cb_merge g_cb_delete g_cb_show_prompt g_cb_store_line g_cb_auto_step g_cb_llist g_cb_renum g_read
-  w_erase w_load_P w_poke poke_needs_allow new_erases load_erases_first fires wvalue].
+  w_erase w_load_P w_poke poke_needs_allow new_erases load_erases_first field_bounded fires wvalue].
 
 Ltac open_step := unfold estep, step, refuse, done, erase, load_file, write_flag, taint, st, rs_, ob,
   set_run, set_prog, set_tainted, set_protected; cbn [protected allow_protect run_mode prog secret tainted fst snd];
@@ -56,8 +56,8 @@ Lemma inv_step_direct s o : inv s -> inv (st (estep s (Direct o))).
 Proof.
   unfold inv. intros Hi.
   destruct s as [p a r pr se t]; unfold estep, set_run; cbn [protected allow_protect run_mode prog secret tainted] in *.
-  destruct o as [ | |r'| |m| | | | | |v| | | |v| | | |r'|em|hl|hl|f|f|f| |rs| | | | ];
-    try destruct m; try destruct f; try destruct em; try destruct hl;
+  destruct o as [ | |r'| |m| | | | | |v| | | |v| | | |r'|em|hl|hl|f|f|f| |rs| | | | |la fw];
+    try destruct m; try destruct f; try destruct em; try destruct hl; try destruct fw; try destruct la;
     destruct p, a, se, t; open_step; split_ifs;
     cbn [protected allow_protect run_mode prog secret tainted fst snd negb andb orb] in *;
     close_inv Hi.
@@ -66,8 +66,8 @@ Qed.
 Lemma inv_step_prog s o : inv s -> self_unprotect (Prog o) = false -> inv (st (estep s (Prog o))).
 Proof.
   unfold inv. intros Hi Hn.
-  destruct o as [ | |r| |m| | | | | |v| | | |v| | | |r|em|hl|hl|f|f|f| |rs| | | | ];
-    try destruct m; try destruct f; try destruct em; try destruct hl;
+  destruct o as [ | |r| |m| | | | | |v| | | |v| | | |r|em|hl|hl|f|f|f| |rs| | | | |la fw];
+    try destruct m; try destruct f; try destruct em; try destruct hl; try destruct fw; try destruct la;
     destr_state s; open_step; cbn in Hi, Hn |- *; split_ifs;
     cbn [protected allow_protect run_mode prog secret tainted fst snd negb andb orb] in *;
     intros; try (split; congruence); try (apply Hi; congruence); try discriminate; auto;
@@ -102,8 +102,8 @@ Lemma flag_cleared_only s e :
   replaces_program e = true \/ self_unprotect e = true.
 Proof.
   destruct e as [o|o];
-    (destruct o as [ | |r| |m| | | | | |v| | | |v| | | |r|em|hl|hl|f|f|f| |rs| | | | ];
-     try destruct m; try destruct f; try destruct em; try destruct hl;
+    (destruct o as [ | |r| |m| | | | | |v| | | |v| | | |r|em|hl|hl|f|f|f| |rs| | | | |la fw];
+     try destruct m; try destruct f; try destruct em; try destruct hl; try destruct fw; try destruct la;
      destr_state s; open_step; cbn; split_ifs;
      cbn [protected allow_protect run_mode prog secret tainted fst snd negb andb orb] in *;
      intros; try discriminate; auto;
@@ -118,8 +118,8 @@ Lemma no_plain s o :
   ob (step s o) = NoObs \/ (o = OSave SP /\ ob (step s o) = cipher (prog s)).
 Proof.
   intros Hp Hr.
-  destruct o as [ | |r| |m| | | | | |v| | | |v| | | |r|em|hl|hl|f|f|f| |rs| | | | ];
-    try destruct m; try destruct f; try destruct em; try destruct hl;
+  destruct o as [ | |r| |m| | | | | |v| | | |v| | | |r|em|hl|hl|f|f|f| |rs| | | | |la fw];
+    try destruct m; try destruct f; try destruct em; try destruct hl; try destruct fw; try destruct la;
     destruct s as [p a r0 pr se t]; cbn in Hp, Hr; subst p r0;
     open_step; split_ifs; auto.
 Qed.
@@ -140,9 +140,9 @@ Lemma refused s o :
   step s o = (s, Err E_IFC, NoObs).
 Proof.
   intros Hp Hr Hm.
-  destruct o as [ | |r| |m| | | | | |v| | | |v| | | |r|em|hl|hl|f|f|f| |rs| | | | ];
+  destruct o as [ | |r| |m| | | | | |v| | | |v| | | |r|em|hl|hl|f|f|f| |rs| | | | |la fw];
     try discriminate Hm;
-    try destruct m; try destruct em; try destruct hl; try discriminate Hm;
+    try destruct m; try destruct em; try destruct hl; try destruct fw; try discriminate Hm;
     destruct s as [p a r0 pr se t]; cbn in Hp, Hr; cbn [must_fail prog] in Hm; subst p r0;
     open_step; try rewrite Hm; cbn; reflexivity.
 Qed.
@@ -165,8 +165,8 @@ Proof.
   assert (Ha' : allow_protect s' = true).
   { subst s'. clear Hi Hall Hs Hi'. revert s Ha. induction es as [|e es IH]; intros s Ha; cbn; [assumption|].
     apply IH. destruct e as [o'|o'];
-      (destruct o' as [ | |r| |m| | | | | |v| | | |v| | | |r|em|hl|hl|f|f|f| |rs| | | | ];
-       try destruct m; try destruct f; try destruct em; try destruct hl;
+      (destruct o' as [ | |r| |m| | | | | |v| | | |v| | | |r|em|hl|hl|f|f|f| |rs| | | | |la fw];
+       try destruct m; try destruct f; try destruct em; try destruct hl; try destruct fw; try destruct la;
        destr_state s; open_step; split_ifs; cbn in *; congruence). }
   destruct (Hi' Ha' Hs) as [Hp _].
   cbn [estep].
@@ -242,10 +242,10 @@ Proof.
   destruct s1 as [p1 a1 r1 pr1 se1 t1]; destruct s2 as [p2 a2 r2 pr2 se2 t2].
   cbn in Ha, Hr, Hp, Hs, Ht, Hrun. subst a2 r2 pr2 se2 t2 r1.
   unfold same_but_flag.
-  destruct o as [ | |r| |m| | | | | |v| | | |v| | | |r|em|hl|hl|f|f|f| |rs| | | | ];
+  destruct o as [ | |r| |m| | | | | |v| | | |v| | | |r|em|hl|hl|f|f|f| |rs| | | | |la fw];
     cbv [flag_sensitive run_fires g_renum g_cb_renum g_delete g_cb_delete orb] in Hf;
     try discriminate Hf;
-    try destruct m; try destruct f; try destruct em; try destruct hl; try discriminate Hf;
+    try destruct m; try destruct f; try destruct em; try destruct hl; try destruct fw; try destruct la; try discriminate Hf;
     destruct p1, p2, a1; open_step; split_ifs; cbn; auto 10.
 Qed.
 
